@@ -105,7 +105,12 @@ func (r *Run) SubSeed(stream string) int64 {
 	return int64(h.Sum64() >> 1)
 }
 
-func (r *Run) Eval(n int64) { atomic.AddInt64(&r.evals, n) }
+func (r *Run) Eval(n int64) {
+	if r == nil { // checks' relation functions are also called from native fuzz targets, without a Run
+		return
+	}
+	atomic.AddInt64(&r.evals, n)
+}
 
 // Distinct records the signature of a non-trivial case.
 func (r *Run) Distinct(sig string) {
@@ -146,6 +151,9 @@ func (r *Run) Sample(v any) {
 }
 
 func (r *Run) Count(name string, n int64) {
+	if r == nil {
+		return
+	}
 	r.mu.Lock()
 	r.counters[name] += n
 	r.mu.Unlock()
@@ -217,6 +225,9 @@ func (r *Run) Violations() int {
 
 // Inconclusive records that part of the run could not decide.
 func (r *Run) Inconclusive(msg string) {
+	if r == nil {
+		return
+	}
 	r.mu.Lock()
 	n := len(r.inconclusive)
 	if n < 50 {
